@@ -580,7 +580,7 @@ hits the second write after one byte; the crash comes after 4 operations: the ta
 the temporary file holds the partial text `[2,3]` -/
 example :
     let fs : FS Nat := fun p => if p = 0 then some [1] else none
-    let evs := (saveRun (P := Nat) 0 1 [[2], [3, 4]] (some ⟨2, [3]⟩)).evs
+    let evs := (saveRun (P := Nat) 0 1 [[2], [3, 4]] (some ⟨2, [3], []⟩)).evs
     evs.length = 5 ∧ applyEvs fs (evs.take 3) 0 = some [1] ∧ applyEvs fs (evs.take 3) 1 = some [2, 3]
       ∧ applyEvs fs evs 0 = some [1] ∧ applyEvs fs evs 1 = none := by
   decide
@@ -597,7 +597,7 @@ example :
 example :
     let same : Nat → Nat → Bool := fun a b => a == b
     let ser : Nat → List Bytes := fun d => [[d.toUInt8]]
-    let o1 := saveStep (P := Nat) same ser 0 1 7 8 (some ⟨3, []⟩)
+    let o1 := saveStep (P := Nat) same ser 0 1 7 8 (some ⟨3, [], []⟩)
     let o2 := saveStep (P := Nat) same ser 0 1 o1.believed 8 none
     o1.raised = true ∧ o1.believed = 7 ∧ o2.evs.length = 5 ∧ o2.believed = 8 := by
   decide
@@ -617,7 +617,7 @@ example :
       | [(_, .null)] => [[1]]
       | _ => [[2]]
     let parse : Bytes → Option (JV Nat) := fun b => if b = [1] then some (.obj d1) else if b = [2] then some (.obj d2) else none
-    let hist : List (Dict Nat × Option Fault) := [(d1, some ⟨3, []⟩), (d2, none)]
+    let hist : List (Dict Nat × Option Fault) := [(d1, some ⟨3, [], []⟩), (d2, none)]
     (∀ a ∈ hist, parse (ser a.1).flatten = some (.obj a.1)) ∧
     (hist.foldl (SaveWorld.step (P := Nat) same ser 0 1) ⟨loadRaw parse none, fun _ => none⟩).believed.length = 1 ∧
     (hist.foldl (SaveWorld.step (P := Nat) same ser 0 1) ⟨loadRaw parse none, fun _ => none⟩).fs 0 = some [2] := by
@@ -674,7 +674,7 @@ holds a = 200, which the write method refuses: the parameter keeps 5 (and the mo
 example :
     let ms : MState Nat Nat := ⟨exParams, [("b", 1)], [], []⟩
     valueOf (loadParameters exEnv ms (some (List.replicate 9 1)) none).ms.params "a" = some 9 ∧
-    valueOf (loadParameters exEnv ms (some (List.replicate 200 1)) (some ⟨2, []⟩)).ms.params "a" = some 5 ∧
+    valueOf (loadParameters exEnv ms (some (List.replicate 200 1)) (some ⟨2, [], []⟩)).ms.params "a" = some 5 ∧
     (loadParameters exEnv ms (some (List.replicate 9 1)) none).writes = [("a", 9)] := by
   refine ⟨by decide +kernel, by decide +kernel, by decide +kernel⟩
 
@@ -684,9 +684,9 @@ example :
     let fs0 : FS Nat := fun p => if p = 0 then some [1, 1, 1] else none
     let o := startUp exEnv exParams [("a", 5)] (fs0 exEnv.tgt) none
     ∀ p ∈ o.ms.params, p.persistent = true →
-      valueOf (loadParameters exEnv o.ms (applyEvs fs0 o.evs exEnv.tgt) (some ⟨1, [1]⟩)).ms.params p.name = some p.value := by
+      valueOf (loadParameters exEnv o.ms (applyEvs fs0 o.evs exEnv.tgt) (some ⟨1, [1], []⟩)).ms.params p.name = some p.value := by
   intro fs0 o
-  exact (reload_after_startup_keeps_values exEnv exLaws.1 exParams [("a", 5)] fs0 none (some ⟨1, [1]⟩) exLaws.2.1 exCodec
+  exact (reload_after_startup_keeps_values exEnv exLaws.1 exParams [("a", 5)] fs0 none (some ⟨1, [1], []⟩) exLaws.2.1 exCodec
     exLaws.2.2.1 exLaws.2.2.2.1 exLaws.2.2.2.2.1 (by decide +kernel) (fun p _ _ => exLaws.2.2.2.2.2 _ _)).1
 
 /-- `reload_from_this_run` applied in that scenario to an arbitrary history; and a concrete history in which the reload
@@ -728,10 +728,10 @@ example (held : String → List Nat) (hist : List (Act Nat × Option Fault)) (fs
     ReloadRestores exEnv.parse exEnv.imp exEnv.wval (some (List.replicate 9 1))
       (exParams.map (fun p => ⟨p.name, p.persistent, p.hasWrite, p.value, held p.name,
         (valueOf (loadParameters exEnv ⟨exParams, [("b", 1)], [], []⟩ (some (List.replicate 9 1)) none).ms.params p.name).getD p.value⟩)) ∧
-    (let o := startUp exEnv exParams [("a", 5)] (fs0 exEnv.tgt) (some ⟨3, []⟩)
+    (let o := startUp exEnv exParams [("a", 5)] (fs0 exEnv.tgt) (some ⟨3, [], []⟩)
      let w := World.run exEnv ⟨o.ms, applyEvs fs0 o.evs⟩ hist
      loadRaw exEnv.parse (w.fs exEnv.tgt) = w.ms.believed) :=
   ⟨reload_restores exEnv ⟨exParams, [("b", 1)], [], []⟩ _ none held exLaws.2.1 exLaws.2.2.1 exLaws.2.2.2.1,
-   believed_on_disk_world exEnv exLaws.1 exParams [("a", 5)] fs0 (some ⟨3, []⟩) hist exCodec⟩
+   believed_on_disk_world exEnv exLaws.1 exParams [("a", 5)] fs0 (some ⟨3, [], []⟩) hist exCodec⟩
 
 end Frappy.Props.C17
